@@ -1,4 +1,4 @@
-import ZbossModel.Proofs.HostSched
+import ZbossModel.Proofs.HostBound
 /-! # C13 - a finished request leaves nothing behind, however it finished
 
 `Host.step` is the request machine at quiescent points: request start, ACK / response bytes,
@@ -43,6 +43,33 @@ theorem C13_no_new_listeners (fuel : Nat) (st : St) : ∀ l ∈ (settle fuel st)
     quiescent points of the FIFO run -/
 theorem C13_no_residue_any_schedule (hist : List Out) (st : St) (h : MReach hist st) : NoResidue st :=
   (mreach_inv hist st h).2
+
+theorem settle_idle (fuel : Nat) (st : St) (h : st.ready = []) : settle fuel st = st := by
+  cases fuel with
+  | zero => rfl
+  | succ n => unfold settle; rw [h]
+
+/-- **a late response is discarded without effect**: when no waiter is registered for its command (the request ended
+    by timeout, cancellation, close or loss, or was answered before), a response only gets its link-layer ACK: no
+    request changes, no listener appears, nobody is woken -/
+theorem C13_late_response_no_effect (st : St) (key : Nat) (hnone : st.listeners.find? (fun l => l.2 == key) = none)
+    (hq : st.ready = []) :
+    (step st (.rxRsp key)).reqs = st.reqs ∧ (step st (.rxRsp key)).listeners = st.listeners ∧
+    (step st (.rxRsp key)).ready = [] ∧ (step st (.rxRsp key)).out = (if st.transport then [.wack] else []) := by
+  simp only [step]
+  generalize hst1 : (if ({ st with out := [] } : St).transport = true then emit { st with out := [] } Out.wack else { st with out := [] }) = st1
+  have h1 : st1.listeners = st.listeners ∧ st1.reqs = st.reqs ∧ st1.ready = st.ready ∧
+      st1.out = (if st.transport then [.wack] else []) := by
+    rw [← hst1]
+    by_cases ht : st.transport = true
+    · simp [ht, emit]
+    · have ht' : st.transport = false := by simpa using ht
+      simp [ht']
+  have hf : st1.listeners.find? (fun l => l.2 == key) = none := by rw [h1.1]; exact hnone
+  rw [hf]
+  simp only []
+  rw [settle_idle _ _ (by rw [h1.2.2.1]; exact hq)]
+  exact ⟨h1.2.1, h1.1, by rw [h1.2.2.1]; exact hq, h1.2.2.2⟩
 
 /-! ## non-vacuity: a request cancelled while queued behind the message lock leaves no listener, and the
     response that arrives later goes to the next request for that command -/
